@@ -26,7 +26,7 @@ ASSUMPTIONS = [
 def build(case):
     c = case["c"]
     curves = [("C%d" % k, "", "", "") for k in range(case["d"])]
-    spec = lastext.simple_spec(curves, [], nl=case["nl"], final_nl=case["final_nl"])
+    spec = lastext.simple_spec(curves, [], nl=case["nl"], final_nl=case["final_nl"], dlm=case.get("dlm"))
     a = spec["sections"][-1]
     a["ncols"] = c
     a["title"] = case.get("atitle", "~ASCII")
@@ -73,9 +73,9 @@ class Trace(object):
         self.orig = R.read_data_section_iterative_numpy_engine
         tr = self
 
-        def wrapper(file_obj, line_nos):
+        def wrapper(*args, **kwargs):  # whatever arguments lasio passes to its engine
             try:
-                arr = tr.orig(file_obj, line_nos)
+                arr = tr.orig(*args, **kwargs)
             except Exception as e:  # noqa
                 tr.events.append(("raised", type(e).__name__))
                 raise
@@ -138,6 +138,8 @@ def oracle(case):
     if case["d"] != c:
         layout.append("declared!=columns")
     out.cls(*layout)
+    if case.get("dlm"):
+        out.cls("dlm-" + case["dlm"])
     out.sample = dict(text=text if len(text) < 700 else text[:700] + "...", layout=layout)
     with Trace() as tr:
         fast = read_text(text, engine="numpy")
@@ -194,6 +196,17 @@ def cases(draw, max_rows=10):
             rows.append(dict(toks=toks, lead="", seps=[" "] * (c - 1), trail=""))
         else:
             rows.append(dict(toks=toks, lead=draw(S.pad0), seps=[draw(S.SEP) for _ in range(c - 1)], trail=draw(S.pad0)))
+    dlm = None
+    if draw(st.integers(0, 5)) == 0:
+        # the file declares DLM TAB: every separator contains a tab; tabs may also pad the lines (same pad on all lines
+        # some of the time, so that nothing makes the fast engine give up)
+        dlm = "TAB"
+        lead = draw(st.sampled_from(["", "", "\t", "\t\t", " "]))
+        trail = draw(st.sampled_from(["", "", "\t", " \t"]))
+        sep = draw(st.sampled_from(["\t", "\t", "\t\t", " \t", "\t "]))
+        for rw in rows:
+            rw["lead"], rw["trail"] = lead, trail
+            rw["seps"] = [sep if draw(st.integers(0, 3)) else draw(st.sampled_from(["\t", "\t\t", " \t "])) for _ in rw["seps"]]
     noise_text = st.sampled_from(["", "", "   ", "\t", "# comment", "#", "  # indented comment", "#1 2 3"])
     nn = draw(st.sampled_from([0, 0, 1, 1, 2, 4]))
     noise = []
@@ -203,7 +216,7 @@ def cases(draw, max_rows=10):
     after = draw(st.sampled_from([[], [], [], ["P"], ["O"], ["X"], ["P", "O"], ["X", "P"], ["E"], ["O", "X"], ["OL"], ["PL"], ["X", "OL"]]))
     after = [a + str(draw(st.integers(8, 40))) if a in ("OL", "PL") else a for a in after]
     d = c if draw(st.integers(0, 99)) < 85 else draw(st.integers(0, 10))
-    return dict(scaffold=draw(S.scaffold()), c=c, d=d, rows=rows, noise=noise, after=after, nl=draw(st.sampled_from(["\n", "\n", "\r\n"])),
+    return dict(dlm=dlm, scaffold=draw(S.scaffold()), c=c, d=d, rows=rows, noise=noise, after=after, nl=draw(st.sampled_from(["\n", "\n", "\r\n"])),
                 final_nl=draw(st.sampled_from([True, True, False])),
                 atitle=draw(st.sampled_from(["~ASCII", "~A", "~A  DEPTH  GR", "~Ascii log data"])))
 
